@@ -870,8 +870,13 @@ where
             } => {
                 // Try to remove the victims from the cache (hash map).
                 for victim in victim_nodes {
+                    // Remove the victim only if the map still holds the entry that
+                    // owns this node.
+                    let vic_elem = unsafe { &victim.as_ref().element };
                     if let Some((_vic_key, vic_entry)) =
-                        self.cache.remove(unsafe { victim.as_ref().element.key() })
+                        self.cache.remove_if(vic_elem.key(), |_, v| {
+                            std::ptr::eq(&**v.entry_info(), vic_elem.entry_info())
+                        })
                     {
                         // And then remove the victim from the deques.
                         Self::handle_remove(deqs, vic_entry, counters);
@@ -946,7 +951,12 @@ where
                 next_victim = DeqNode::next_node_ptr(victim);
                 let vic_elem = &unsafe { victim.as_ref() }.element;
 
-                if let Some(vic_entry) = cache.get(vic_elem.key()) {
+                // A node is a potential victim only if the map still holds the entry
+                // that owns it (the key may have been re-inserted as a new entry).
+                if let Some(vic_entry) = cache
+                    .get(vic_elem.key())
+                    .filter(|e| std::ptr::eq(&**e.entry_info(), vic_elem.entry_info()))
+                {
                     victims.add_policy_weight(vic_entry.policy_weight());
                     victims.add_frequency(freq, vic_elem.hash());
                     victim_nodes.push(victim);
@@ -1083,7 +1093,10 @@ where
             let key = deq.peek_front().and_then(|node| {
                 // TODO: Skip the entry if it is dirty. See `evict_lru_entries` method as an example.
                 if is_expired_entry_ao(tti, va, node, now) {
-                    Some(Arc::clone(node.element.key()))
+                    Some((
+                        Arc::clone(node.element.key()),
+                        node.element.entry_info() as *const EntryInfo<K>,
+                    ))
                 } else {
                     None
                 }
@@ -1093,15 +1106,16 @@ where
                 break;
             }
 
-            let key = key.as_ref().unwrap();
+            let (key, info) = key.as_ref().unwrap();
 
             // Remove the key from the map only when the entry is really
             // expired. This check is needed because it is possible that the entry in
             // the map has been updated or deleted but its deque node we checked
-            // above have not been updated yet.
-            let maybe_entry = self
-                .cache
-                .remove_if(key, |_, v| is_expired_entry_ao(tti, va, v, now));
+            // above have not been updated yet. The entry must also be the one that
+            // owns the node.
+            let maybe_entry = self.cache.remove_if(key, |_, v| {
+                std::ptr::eq(&**v.entry_info(), *info) && is_expired_entry_ao(tti, va, v, now)
+            });
 
             if let Some((_k, entry)) = maybe_entry {
                 Self::handle_remove_with_deques(deq_name, deq, write_order_deq, entry, counters);
@@ -1153,7 +1167,10 @@ where
             let key = deqs.write_order.peek_front().and_then(|node| {
                 // TODO: Skip the entry if it is dirty. See `evict_lru_entries` method as an example.
                 if is_expired_entry_wo(ttl, va, node, now) {
-                    Some(Arc::clone(node.element.key()))
+                    Some((
+                        Arc::clone(node.element.key()),
+                        node.element.entry_info() as *const EntryInfo<K>,
+                    ))
                 } else {
                     None
                 }
@@ -1163,11 +1180,11 @@ where
                 break;
             }
 
-            let key = key.as_ref().unwrap();
+            let (key, info) = key.as_ref().unwrap();
 
-            let maybe_entry = self
-                .cache
-                .remove_if(key, |_, v| is_expired_entry_wo(ttl, va, v, now));
+            let maybe_entry = self.cache.remove_if(key, |_, v| {
+                std::ptr::eq(&**v.entry_info(), *info) && is_expired_entry_wo(ttl, va, v, now)
+            });
 
             if let Some((_k, entry)) = maybe_entry {
                 Self::handle_remove(deqs, entry, counters);
@@ -1208,18 +1225,21 @@ where
             let maybe_key_and_ts = deq.peek_front().map(|node| {
                 let entry_info = node.element.entry_info();
                 (
-                    Arc::clone(node.element.key()),
+                    (
+                        Arc::clone(node.element.key()),
+                        entry_info as *const EntryInfo<K>,
+                    ),
                     entry_info.is_dirty(),
                     entry_info.last_modified(),
                 )
             });
 
-            let (key, ts) = match maybe_key_and_ts {
+            let ((key, info), ts) = match maybe_key_and_ts {
                 Some((key, false, Some(ts))) => (key, ts),
                 // TODO: Remove the second pattern `Some((_key, false, None))` once we change
                 // `last_modified` and `last_accessed` in `EntryInfo` from `Option<Instant>` to
                 // `Instant`.
-                Some((key, true, _)) | Some((key, false, None)) => {
+                Some(((key, _), true, _)) | Some(((key, _), false, None)) => {
                     if self.try_skip_updated_entry(&key, DEQ_NAME, deq, write_order_deq) {
                         continue;
                     } else {
@@ -1231,7 +1251,7 @@ where
 
             let maybe_entry = self.cache.remove_if(&key, |_, v| {
                 if let Some(lm) = v.last_modified() {
-                    lm == ts
+                    std::ptr::eq(&**v.entry_info(), info) && lm == ts
                 } else {
                     false
                 }
